@@ -174,7 +174,8 @@ fn raw_header(name: &[u8], size: usize, typeflag: u8) -> [u8; 512] {
 /// Encode a non-regular entry (directory, link, fifo): header only, no data.
 pub fn tar_special_entry_bytes(name: &str, typeflag: u8) -> Vec<u8> {
     let mut out = vec![];
-    let nb = name.as_bytes();
+    let nbv = name_bytes(name);
+    let nb = &nbv[..];
     if nb.len() > 100 {
         let mut d = nb.to_vec();
         d.push(0);
@@ -197,9 +198,19 @@ pub fn tar_special_entry_bytes(name: &str, typeflag: u8) -> Vec<u8> {
     out
 }
 
+/// Entry names are bytes, not text: a spec name starting with "raw:" stands for the bytes given by the code
+/// points (each <= 0xFF) of the rest, so that names which are not UTF-8 can be written down in a JSON spec.
+pub fn name_bytes(name: &str) -> Vec<u8> {
+    match name.strip_prefix("raw:") {
+        Some(rest) => rest.chars().map(|c| c as u32 as u8).collect(),
+        None => name.as_bytes().to_vec(),
+    }
+}
+
 pub fn tar_entry_bytes(name: &str, data: &[u8]) -> Vec<u8> {
     let mut out = vec![];
-    let nb = name.as_bytes();
+    let nbv = name_bytes(name);
+    let nb = &nbv[..];
     if nb.len() > 100 {
         let mut d = nb.to_vec();
         d.push(0);
